@@ -61,6 +61,75 @@ theorem mkUint_width (n : Nat) :
       · exact ⟨.w4, by decide, by simp [h1, h2, h]⟩
 
 
+/-! ### signed integers and floats: the typed accessors on what the typed writer methods emit -/
+
+theorem i8_sint (t : Tag) (i : Int) (more : Bytes) (h : (Prim.sint .w1 i).wf) :
+    i8 (encode (.leaf t (.sint .w1 i)) ++ more) = .ok i := by
+  obtain ⟨h1, h2⟩ := signed_roundtrip .w1 i h
+  have hv : leVal (Prim.sint .w1 i).data = ofSigned Width.w1.bytes i := by
+    simp only [Prim.data]; exact leVal_leBytes_of_lt h1
+  have hf := fixedVal_leafE t (.sint .w1 i) more h Width.w1.bytes (by simp [Prim.data])
+  rw [hv] at hf
+  simp only [i8, control_leafE, Res.ok_bind, Prim.vt, Width.bytes, if_true] at hf h2 ⊢
+  simp only [hf, Res.ok_bind, Res.pure_eq, h2]
+
+theorem i16_sint (t : Tag) (w : Width) (i : Int) (more : Bytes) (hw : w = .w1 ∨ w = .w2) (h : (Prim.sint w i).wf) :
+    i16 (encode (.leaf t (.sint w i)) ++ more) = .ok i := by
+  obtain ⟨h1, h2⟩ := signed_roundtrip w i h
+  have hv : leVal (Prim.sint w i).data = ofSigned w.bytes i := by
+    simp only [Prim.data]; exact leVal_leBytes_of_lt h1
+  have hf := fixedVal_leafE t (.sint w i) more h w.bytes (by simp [Prim.data])
+  rw [hv] at hf
+  rcases hw with rfl | rfl <;>
+    simp only [i16, i8, control_leafE, Res.ok_bind, Prim.vt, Width.bytes, reduceCtorEq,
+      ValueType.sint.injEq, if_false, if_true] at hf h2 ⊢ <;>
+    simp only [hf, Res.ok_bind, Res.pure_eq, h2]
+
+theorem i32_sint (t : Tag) (w : Width) (i : Int) (more : Bytes) (hw : w ≠ .w8) (h : (Prim.sint w i).wf) :
+    i32 (encode (.leaf t (.sint w i)) ++ more) = .ok i := by
+  obtain ⟨h1, h2⟩ := signed_roundtrip w i h
+  have hv : leVal (Prim.sint w i).data = ofSigned w.bytes i := by
+    simp only [Prim.data]; exact leVal_leBytes_of_lt h1
+  have hf := fixedVal_leafE t (.sint w i) more h w.bytes (by simp [Prim.data])
+  rw [hv] at hf
+  cases w <;> first | exact absurd rfl hw | skip
+  all_goals
+    simp only [i32, i16, i8, control_leafE, Res.ok_bind, Prim.vt, Width.bytes, reduceCtorEq,
+      ValueType.sint.injEq, if_false, if_true] at hf h2 ⊢ <;>
+    simp only [hf, Res.ok_bind, Res.pure_eq, h2]
+
+/-- `TLVWrite::i16/i32/i64`: the smallest signed width that holds the value -/
+theorem mkSint_width (i : Int) :
+    (-128 ≤ i ∧ i ≤ 127 → Prim.mkSint i = .sint .w1 i) ∧
+    (-32768 ≤ i ∧ i ≤ 32767 → Prim.mkSint i = .sint .w1 i ∨ Prim.mkSint i = .sint .w2 i) ∧
+    (-2147483648 ≤ i ∧ i ≤ 2147483647 → ∃ w, w ≠ Width.w8 ∧ Prim.mkSint i = .sint w i) := by
+  unfold Prim.mkSint
+  refine ⟨fun h => by simp [h], fun h => ?_, fun h => ?_⟩
+  · by_cases h1 : -128 ≤ i ∧ i ≤ 127
+    · left; simp [h1]
+    · right; simp [h1, h]
+  · by_cases h1 : -128 ≤ i ∧ i ≤ 127
+    · exact ⟨.w1, by decide, by simp [h1]⟩
+    · by_cases h2 : -32768 ≤ i ∧ i ≤ 32767
+      · exact ⟨.w2, by decide, by simp [h1, h2]⟩
+      · exact ⟨.w4, by decide, by simp [h1, h2, h]⟩
+
+theorem f32_written (t : Tag) (b : Nat) (X : Bytes) (h : b < 2 ^ 32) :
+    Tlv.f32 (encode (.leaf t (.f32 b)) ++ X) = .ok b := by
+  have hv : leVal (Prim.f32 b).data = b := by
+    simp only [Prim.data]; exact leVal_leBytes_of_lt (by omega)
+  have hf := fixedVal_leafE t (.f32 b) X h 4 (by simp [Prim.data])
+  rw [hv] at hf
+  simp only [Tlv.f32, control_leafE, Res.ok_bind, Prim.vt, if_true]; exact hf
+
+theorem f64_written (t : Tag) (b : Nat) (X : Bytes) (h : b < 2 ^ 64) :
+    Tlv.f64 (encode (.leaf t (.f64 b)) ++ X) = .ok b := by
+  have hv : leVal (Prim.f64 b).data = b := by
+    simp only [Prim.data]; exact leVal_leBytes_of_lt (by omega)
+  have hf := fixedVal_leafE t (.f64 b) X h 8 (by simp [Prim.data])
+  rw [hv] at hf
+  simp only [Tlv.f64, control_leafE, Res.ok_bind, Prim.vt, if_true]; exact hf
+
 
 /-- a context-tagged value (what a derived field writes: primitive or container) -/
 def CtxVal (v : Value) : Prop := ∃ tg, v.tag = .ctx tg ∧ tg < 256 ∧ v.wf
@@ -209,6 +278,91 @@ theorem readUint_written (t : Tag) (w : Width) (n : Nat) (X : Bytes) (hn : n ≤
     rw [hw] at hwf ⊢
     exact u64_uint t w' n X hwf
 
+theorem smin_smax_vals :
+    smin .w1 = -128 ∧ smax .w1 = 127 ∧ smin .w2 = -32768 ∧ smax .w2 = 32767 ∧
+    smin .w4 = -2147483648 ∧ smax .w4 = 2147483647 ∧
+    smin .w8 = -9223372036854775808 ∧ smax .w8 = 9223372036854775807 := by
+  simp only [smin, smax, Width.bytes]; decide
+
+theorem sint_range_wf (w : Width) (i : Int) (hlo : smin w ≤ i) (hhi : i ≤ smax w) : (Prim.sint w i).wf := by
+  simp only [smin, smax] at hlo hhi
+  simp only [Prim.wf]; omega
+
+theorem sint_range_i64 (w : Width) (i : Int) (hlo : smin w ≤ i) (hhi : i ≤ smax w) :
+    -(2 ^ 63 : Nat) ≤ i ∧ i < (2 ^ 63 : Nat) := by
+  obtain ⟨a1, a2, b1, b2, c1, c2, d1, d2⟩ := smin_smax_vals
+  cases w
+  · rw [a1] at hlo; rw [a2] at hhi; omega
+  · rw [b1] at hlo; rw [b2] at hhi; omega
+  · rw [c1] at hlo; rw [c2] at hhi; omega
+  · rw [d1] at hlo; rw [d2] at hhi; omega
+
+theorem sintPrim_wf (w : Width) (i : Int) (hlo : smin w ≤ i) (hhi : i ≤ smax w) : (sintPrim w i).wf := by
+  unfold sintPrim
+  by_cases h1 : w = .w1
+  · subst h1; simp only [if_true]; exact sint_range_wf .w1 i hlo hhi
+  · simp only [h1, if_false]; exact mkSint_wf i (sint_range_i64 w i hlo hhi)
+
+theorem sintPrim_eq (w : Width) (i : Int) : ∃ w', sintPrim w i = .sint w' i := by
+  unfold sintPrim
+  by_cases h1 : w = .w1
+  · exact ⟨.w1, by simp [h1]⟩
+  · obtain ⟨w', hw⟩ := mkSint_eq i; exact ⟨w', by simp [h1, hw]⟩
+
+/-- the signed integer a field writes (`tw.i8` / the smallest signed width) reads back through the field
+type's accessor (`i8()` / the widening chains `i16() → i8()`, `i32() → i16() → i8()`, `i64() → …`) -/
+theorem readSint_written (t : Tag) (w : Width) (i : Int) (X : Bytes) (hlo : smin w ≤ i) (hhi : i ≤ smax w) :
+    readSint w (encode (.leaf t (sintPrim w i)) ++ X) = .ok i := by
+  obtain ⟨a1, a2, b1, b2, c1, c2, d1, d2⟩ := smin_smax_vals
+  cases w with
+  | w1 =>
+    simp only [readSint, sintPrim, if_true]
+    exact i8_sint t i X (sint_range_wf .w1 i hlo hhi)
+  | w2 =>
+    rw [b1] at hlo; rw [b2] at hhi
+    have hw := (mkSint_width i).2.1 ⟨hlo, hhi⟩
+    have hwf := mkSint_wf i (by omega)
+    simp only [readSint, sintPrim, reduceCtorEq, if_false]
+    rcases hw with hw | hw <;> rw [hw] at hwf ⊢
+    · exact i16_sint t _ i X (Or.inl rfl) hwf
+    · exact i16_sint t _ i X (Or.inr rfl) hwf
+  | w4 =>
+    rw [c1] at hlo; rw [c2] at hhi
+    obtain ⟨w', hw8, hw⟩ := (mkSint_width i).2.2 ⟨hlo, hhi⟩
+    have hwf := mkSint_wf i (by omega)
+    simp only [readSint, sintPrim, reduceCtorEq, if_false]
+    rw [hw] at hwf ⊢
+    exact i32_sint t w' i X hw8 hwf
+  | w8 =>
+    rw [d1] at hlo; rw [d2] at hhi
+    obtain ⟨w', hw⟩ := mkSint_eq i
+    have hwf := mkSint_wf i (by omega)
+    simp only [readSint, sintPrim, reduceCtorEq, if_false]
+    rw [hw] at hwf ⊢
+    exact i64_sint t w' i X hwf
+
+/-! ### `[T; N]`: padding -/
+
+theorem Vals.append_nil : ∀ (vs : Vals), vs.append .nil = vs
+  | .nil => rfl
+  | .cons v r => by simp only [Vals.append, Vals.append_nil r]
+
+theorem Vals.length_append : ∀ (a b : Vals), (a.append b).length = a.length + b.length
+  | .nil, b => by simp [Vals.append, Vals.length]
+  | .cons v r, b => by simp only [Vals.append, Vals.length, Vals.length_append r b]; omega
+
+theorem Vals.length_replicate : ∀ (n : Nat) (d : Val), (Vals.replicate n d).length = n
+  | 0, _ => rfl
+  | n + 1, d => by simp only [Vals.replicate, Vals.length, Vals.length_replicate n d]
+
+/-- a vector that is already full is not padded -/
+theorem padTo_full (n : Nat) (d : Val) (vs : Vals) (h : vs.length = n) : padTo n d vs = vs := by
+  simp only [padTo, h, Nat.sub_self, Vals.replicate, Vals.append_nil]
+
+/-- the padded vector always has exactly `N` items when no more than `N` were read -/
+theorem padTo_length (n : Nat) (d : Val) (vs : Vals) (h : vs.length ≤ n) : (padTo n d vs).length = n := by
+  simp only [padTo, Vals.length_append, Vals.length_replicate]; omega
+
 theorem mkStr_wf (b : Bytes) (h : b.length < USIZE) : (Prim.mkStr b).wf := lenWidth_fits b.length h
 theorem mkUtf8_wf (b : Bytes) (h : b.length < USIZE) (hu : validUtf8 b = true) : (Prim.mkUtf8 b).wf :=
   ⟨lenWidth_fits b.length h, hu⟩
@@ -227,6 +381,7 @@ def _root_.TlvSchema.Ty.wf : Ty → Prop
   | .struct _ fs => fs.wf ∧ fs.tags.Nodup
   | .array _ el => el.wf
   | .choice alts => alts.wf ∧ alts.tags.Nodup
+  | .fixarr _ el _ => el.wf
   | _ => True
 def _root_.TlvSchema.Fields.wf : Fields → Prop
   | .nil => True
@@ -253,6 +408,12 @@ theorem Ty.wf_of_wfb : ∀ (ty : Ty), ty.wfb = true → ty.wf
   | .choice alts, h => by
     simp only [Ty.wfb, Bool.and_eq_true, decide_eq_true_eq] at h
     exact ⟨Alts.wf_of_wfb alts h.1, h.2⟩
+  | .sint _ _, _ => trivial
+  | .f32, _ => trivial
+  | .f64, _ => trivial
+  | .fixarr _ el _, h => by
+    simp only [Ty.wfb] at h
+    exact Ty.wf_of_wfb el h
 theorem Alts.wf_of_wfb : ∀ (alts : Alts), alts.wfb = true → alts.wf
   | .nil, _ => trivial
   | .cons tag ty rest, h => by
@@ -405,6 +566,42 @@ theorem encodeVal_shape : ∀ (ty : Ty) (nl : Bool) (t : Tag) (val : Val) (v : V
         obtain ⟨htag, _, _, hx⟩ := encodeAlts_shape alts i tag ty hty.1 hg
         have := hx false (.ctx tag) a x (by simp only [Tag.wf]; omega) ha
         exact ⟨⟨ht, this.1, trivial⟩, rfl⟩
+  | .sint w nz, nl, t, val, v, hty, ht, h => by
+    cases val <;> simp only [encodeVal, reduceCtorEq] at h
+    rename_i i
+    split at h
+    · rename_i hc
+      simp only [Bool.and_eq_true, decide_eq_true_eq] at hc
+      simp only [Option.some.injEq] at h; subst h
+      exact ⟨⟨ht, sintPrim_wf w i hc.1.1.1 hc.1.1.2⟩, rfl⟩
+    · simp at h
+  | .f32, nl, t, val, v, hty, ht, h => by
+    cases val <;> simp only [encodeVal, reduceCtorEq] at h
+    split at h
+    · rename_i hc
+      simp only [decide_eq_true_eq] at hc
+      simp only [Option.some.injEq] at h; subst h
+      exact ⟨⟨ht, hc⟩, rfl⟩
+    · simp at h
+  | .f64, nl, t, val, v, hty, ht, h => by
+    cases val <;> simp only [encodeVal, reduceCtorEq] at h
+    split at h
+    · rename_i hc
+      simp only [decide_eq_true_eq] at hc
+      simp only [Option.some.injEq] at h; subst h
+      exact ⟨⟨ht, hc⟩, rfl⟩
+    · simp at h
+  | .fixarr n el d, nl, t, val, v, hty, ht, h => by
+    cases val <;> simp only [encodeVal, reduceCtorEq] at h
+    rename_i vs
+    split at h
+    · cases he : encodeElems el vs with
+      | none => simp [he] at h
+      | some xs =>
+        simp only [he, Option.some.injEq] at h; subst h
+        have := encodeElems_shape el (fun val v hv => (encodeVal_shape el false .anon val v hty trivial hv).1) vs xs he
+        exact ⟨⟨ht, ofList_wf xs this⟩, rfl⟩
+    · simp at h
 theorem encodeAlts_shape : ∀ (alts : Alts) (i tag : Nat) (ty : Ty), alts.wf → alts.get i = some (tag, ty) →
     tag < 256 ∧ tag ∈ alts.tags ∧ ty.wf ∧
       ∀ (nl : Bool) (t : Tag) (val : Val) (v : Value), t.wf → encodeVal nl ty t val = some v → v.wf ∧ v.tag = t
@@ -580,6 +777,36 @@ theorem encodeVal_control (ty : Ty) (nl : Bool) (t : Tag) (val : Val) (v : Value
       | some x =>
         simp only [hg, ha, Option.some.injEq] at h; subst h
         exact ⟨_, by rw [encode_cont_append, control_header], fun _ => by simp⟩
+  | sint w nz =>
+    cases val <;> simp only [encodeVal, reduceCtorEq] at h
+    rename_i i
+    split at h
+    · simp only [Option.some.injEq] at h; subst h
+      obtain ⟨w', hw'⟩ := sintPrim_eq w i
+      exact ⟨_, control_leafE _ _ _, fun _ => by rw [hw']; simp [Prim.vt]⟩
+    · simp at h
+  | f32 =>
+    cases val <;> simp only [encodeVal, reduceCtorEq] at h
+    split at h
+    · simp only [Option.some.injEq] at h; subst h
+      exact ⟨_, control_leafE _ _ _, fun _ => by simp [Prim.vt]⟩
+    · simp at h
+  | f64 =>
+    cases val <;> simp only [encodeVal, reduceCtorEq] at h
+    split at h
+    · simp only [Option.some.injEq] at h; subst h
+      exact ⟨_, control_leafE _ _ _, fun _ => by simp [Prim.vt]⟩
+    · simp at h
+  | fixarr n el d =>
+    cases val <;> simp only [encodeVal, reduceCtorEq] at h
+    rename_i vs
+    split at h
+    · cases he : encodeElems el vs with
+      | none => simp [he] at h
+      | some xs =>
+        simp only [he, Option.some.injEq] at h; subst h
+        exact ⟨_, by rw [encode_cont_append, control_header], fun _ => by simp⟩
+    · simp at h
 
 /-- the part of the derived field decoder after `find_ctx` -/
 def decodeSlotAt (o n : Bool) (ty : Ty) (e : Bytes) : Res Slot :=
@@ -654,6 +881,42 @@ theorem decodeSeqWith_encodes (el : Ty) (more : Bytes)
           have := ofList_len_tail x rs; omega
         simp only [Values.ofList, childSuffixes, List.map_cons, decodeSeqWith, Res.ok_bind, hP a x _ ha hdx,
           decodeSeqWith_encodes el more hP r rs hr hdr, Res.pure_eq]
+
+/-- `[T; N]`: the items of a written TLV array pushed into a `Vec<T, N>` with room for `room` more -/
+theorem decodeSeqCap_encodes (el : Ty) (more : Bytes)
+    (hP : ∀ (val : Val) (v : Value) (X : Bytes), encodeVal false el .anon val = some v → (encode v).length + 1 < USIZE →
+      decodeVal false el (encode v ++ X) = .ok val) :
+    ∀ (vs : Vals) (xs : List Value) (room : Nat), encodeElems el vs = some xs →
+      (encodes (Values.ofList xs)).length + 1 < USIZE →
+      decodeSeqCap (decodeVal false el) room ((childSuffixes (Values.ofList xs) more).map .ok) =
+        if vs.length ≤ room then .ok vs else .err .invalid
+  | .nil, xs, room, h, _ => by
+    simp only [encodeElems, Option.some.injEq] at h; subst h
+    simp [Values.ofList, childSuffixes, decodeSeqCap, Vals.length]
+  | .cons a r, xs, room, h, hd => by
+    simp only [encodeElems] at h
+    cases ha : encodeVal false el .anon a with
+    | none => simp [ha] at h
+    | some x =>
+      cases hr : encodeElems el r with
+      | none => simp [ha, hr] at h
+      | some rs =>
+        simp only [ha, hr, Option.some.injEq] at h; subst h
+        have hdx : (encode x).length + 1 < USIZE := by
+          have := ofList_len_mem (x :: rs) x (by simp); omega
+        have hdr : (encodes (Values.ofList rs)).length + 1 < USIZE := by
+          have := ofList_len_tail x rs; omega
+        cases room with
+        | zero =>
+          simp only [Values.ofList, childSuffixes, List.map_cons, decodeSeqCap, Res.ok_bind, hP a x _ ha hdx,
+            Vals.length]
+          simp
+        | succ room' =>
+          simp only [Values.ofList, childSuffixes, List.map_cons, decodeSeqCap, Res.ok_bind, hP a x _ ha hdx,
+            decodeSeqCap_encodes el more hP r rs room' hr hdr, Vals.length]
+          by_cases hle : r.length ≤ room'
+          · simp [hle, Res.ok_bind, Res.pure_eq]
+          · simp [hle, Res.bind]
 
 mutual
 theorem decodeVal_encode : ∀ (ty : Ty) (nl : Bool) (t : Tag) (val : Val) (v : Value) (X : Bytes),
@@ -775,6 +1038,65 @@ theorem decodeVal_encode : ∀ (ty : Ty) (nl : Bool) (t : Tag) (val : Val) (v : 
         have halt := decodeAlts_encode alts i tag ty 0 a x (endByte :: X) hty.1 hty.2 hg ha hxl
         simp only [decodeVal, hst, Res.ok_bind, iterNext_encode x (endByte :: X) hxw hxd,
           tryCtx_encode x tag _ hxt htag, okOr, halt, Nat.zero_add]
+  | .sint w nz, nl, t, val, v, X, _hty, _ht, h, _hd => by
+    cases val <;> simp only [encodeVal, reduceCtorEq] at h
+    rename_i i
+    split at h
+    · rename_i hc
+      simp only [Bool.and_eq_true, decide_eq_true_eq, Bool.or_eq_true, Bool.not_eq_true', bne_iff_ne, ne_eq] at hc
+      obtain ⟨⟨⟨h1, h1b⟩, h2⟩, h3⟩ := hc
+      simp only [Option.some.injEq] at h; subst h
+      have hne : (nl && i == smin w) = false := by
+        rcases h3 with h3 | h3
+        · simp [h3]
+        · simp [h3]
+      have hnz : (nz && i == 0) = false := by
+        rcases h2 with h2 | h2
+        · simp [h2]
+        · simp [h2]
+      simp only [decodeVal, readSint_written t w i X h1 h1b, Res.ok_bind, hne, hnz, Bool.false_eq_true, if_false,
+        Res.pure_eq]
+    · simp at h
+  | .f32, nl, t, val, v, X, _hty, _ht, h, _hd => by
+    cases val <;> simp only [encodeVal, reduceCtorEq] at h
+    rename_i b
+    split at h
+    · rename_i hc
+      simp only [decide_eq_true_eq] at hc
+      simp only [Option.some.injEq] at h; subst h
+      simp only [decodeVal, f32_written t b X hc, Res.ok_bind, Res.pure_eq]
+    · simp at h
+  | .f64, nl, t, val, v, X, _hty, _ht, h, _hd => by
+    cases val <;> simp only [encodeVal, reduceCtorEq] at h
+    rename_i b
+    split at h
+    · rename_i hc
+      simp only [decide_eq_true_eq] at hc
+      simp only [Option.some.injEq] at h; subst h
+      simp only [decodeVal, f64_written t b X hc, Res.ok_bind, Res.pure_eq]
+    · simp at h
+  | .fixarr n el d, nl, t, val, v, X, hty, _ht, h, hd => by
+    cases val <;> simp only [encodeVal, reduceCtorEq] at h
+    rename_i vs
+    split at h
+    · rename_i hlen
+      cases he : encodeElems el vs with
+      | none => simp [he] at h
+      | some xs =>
+        simp only [he, Option.some.injEq] at h; subst h
+        have hcl := encode_cont_len t .array (Values.ofList xs)
+        have hwf : (Values.ofList xs).wf := ofList_wf xs
+          (encodeElems_shape el (fun val v hv => (encodeVal_shape el false .anon val v hty trivial hv).1) vs xs he)
+        have hseq := decodeSeqCap_encodes el X
+          (fun val v X' hv hdv => decodeVal_encode el false .anon val v X' hty trivial hv hdv) vs xs n he (by omega)
+        simp only [hlen, Nat.le_refl, if_true] at hseq
+        have hne : (encode (Value.cont t Kind.array (Values.ofList xs)) ++ X).isEmpty = false := encode_ne_nil _ _
+        have harr : arrayOf (encode (Value.cont t Kind.array (Values.ofList xs)) ++ X) = .ok (encodes (Values.ofList xs) ++ endByte :: X) :=
+          enter_cont .array t _ X
+        simp only [decodeVal, arrayNew, hne, Bool.false_eq_true, if_false, harr, Res.ok_bind, Res.pure_eq,
+          containerOrEmpty, containerOf_cont,
+          elements_encodes _ X hwf (Values.depth_lt_of_len _ (by omega)), hseq, padTo_full n d vs hlen]
+    · simp at h
 theorem decodeAlts_encode : ∀ (alts : Alts) (i tag : Nat) (ty : Ty) (base : Nat) (a : Val) (x : Value) (X : Bytes),
     alts.wf → alts.tags.Nodup → alts.get i = some (tag, ty) → encodeVal false ty (.ctx tag) a = some x →
     (encode x).length + 1 < USIZE →
@@ -987,6 +1309,221 @@ theorem struct_roundtrip (ty : Ty) (val : Val) (v : Value) (X : Bytes) (hty : ty
     (hv : toValue ty val = some v) (hl : (encode v).length + 1 < USIZE) :
     decodeStruct ty (encode v ++ X) = .ok val := by
   exact decodeVal_encode ty false .anon val v X hty trivial hv hl
+
+/-! ### `[T; N]`: what the decoder makes of a TLV array of any length -/
+
+/-- **`[T; N]`, padding and overflow.**  The bytes of a TLV array of `k` items (as the slice / `Vec` encoder writes
+it) decode, as a `[T; N]`, to the `k` items followed by `N - k` copies of `T::default()` when `k ≤ N`, and are
+refused (`ConstraintError`) when `k > N`.  (`k = N` is the round trip.) -/
+theorem fixarr_decodes_array (n : Nat) (el : Ty) (d : Val) (t : Tag) (vs : Vals) (v : Value) (X : Bytes)
+    (hty : el.wf) (hv : encodeVal false (.array none el) t (.arr vs) = some v)
+    (hl : (encode v).length + 1 < USIZE) :
+    decodeVal false (.fixarr n el d) (encode v ++ X) =
+      if vs.length ≤ n then .ok (.arr (padTo n d vs)) else .err .invalid := by
+  simp only [encodeVal, capOk, if_true] at hv
+  cases he : encodeElems el vs with
+  | none => simp [he] at hv
+  | some xs =>
+    simp only [he, Option.some.injEq] at hv; subst hv
+    have hcl := encode_cont_len t .array (Values.ofList xs)
+    have hwf : (Values.ofList xs).wf := ofList_wf xs
+      (encodeElems_shape el (fun val v hv => (encodeVal_shape el false .anon val v hty trivial hv).1) vs xs he)
+    have hseq := decodeSeqCap_encodes el X
+      (fun val v X' hv hdv => decodeVal_encode el false .anon val v X' hty trivial hv hdv) vs xs n he (by omega)
+    have hne : (encode (Value.cont t Kind.array (Values.ofList xs)) ++ X).isEmpty = false := encode_ne_nil _ _
+    have harr : arrayOf (encode (Value.cont t Kind.array (Values.ofList xs)) ++ X) = .ok (encodes (Values.ofList xs) ++ endByte :: X) :=
+      enter_cont .array t _ X
+    simp only [decodeVal, arrayNew, hne, Bool.false_eq_true, if_false, harr, Res.ok_bind, Res.pure_eq,
+      containerOrEmpty, containerOf_cont,
+      elements_encodes _ X hwf (Values.depth_lt_of_len _ (by omega)), hseq]
+    by_cases hle : vs.length ≤ n
+    · simp [hle, Res.ok_bind]
+    · simp [hle, Res.bind]
+
+/-! ### bit flags: the real encoder is the one of the schema with the masks erased -/
+
+theorem Dom.accepts_eraseMask (d : Dom) (n : Nat) (h : d.accepts n = true) : d.eraseMask.accepts n = true := by
+  cases d <;> simp_all [Dom.eraseMask, Dom.accepts]
+
+theorem Alts.get_eraseMask : ∀ (alts : Alts) (i : Nat),
+    alts.eraseMask.get i = (alts.get i).map fun p => (p.1, p.2.eraseMask)
+  | .nil, _ => rfl
+  | .cons _ _ _, 0 => rfl
+  | .cons _ _ rest, i + 1 => by simp only [Alts.eraseMask, Alts.get, Alts.get_eraseMask rest i]
+
+theorem encodeElems_eraseMask (el : Ty)
+    (hP : ∀ val v, encodeVal false el .anon val = some v → encodeVal false el.eraseMask .anon val = some v) :
+    ∀ (vs : Vals) (xs : List Value), encodeElems el vs = some xs → encodeElems el.eraseMask vs = some xs
+  | .nil, xs, h => by simpa only [encodeElems] using h
+  | .cons a r, xs, h => by
+    simp only [encodeElems] at h
+    cases ha : encodeVal false el .anon a with
+    | none => simp [ha] at h
+    | some x =>
+      cases hr : encodeElems el r with
+      | none => simp [ha, hr] at h
+      | some rs =>
+        simp only [ha, hr] at h
+        simp only [encodeElems, hP a x ha, encodeElems_eraseMask el hP r rs hr]; exact h
+
+mutual
+/-- every value the restricted encoder (`encodeVal`: flags that `from_bits` can produce) accepts is written with
+the same bytes by the real one -/
+theorem encodeVal_eraseMask : ∀ (ty : Ty) (nl : Bool) (t : Tag) (val : Val) (v : Value),
+    encodeVal nl ty t val = some v → encodeVal nl ty.eraseMask t val = some v
+  | .uint w d, nl, t, val, v, h => by
+    cases val <;> simp only [encodeVal, reduceCtorEq] at h
+    rename_i n
+    split at h
+    · rename_i hc
+      simp only [Bool.and_eq_true] at hc
+      simp only [Ty.eraseMask, encodeVal, hc.1.1, Dom.accepts_eraseMask d n hc.1.2, hc.2, Bool.and_self, if_true]
+      exact h
+    · simp at h
+  | .bool, nl, t, val, v, h => by simpa only [Ty.eraseMask] using h
+  | .octets lo cap, nl, t, val, v, h => by simpa only [Ty.eraseMask] using h
+  | .utf8 cap, nl, t, val, v, h => by simpa only [Ty.eraseMask] using h
+  | .any, nl, t, val, v, h => by simpa only [Ty.eraseMask] using h
+  | .sint w nz, nl, t, val, v, h => by simpa only [Ty.eraseMask] using h
+  | .f32, nl, t, val, v, h => by simpa only [Ty.eraseMask] using h
+  | .f64, nl, t, val, v, h => by simpa only [Ty.eraseMask] using h
+  | .struct k fs, nl, t, val, v, h => by
+    cases val <;> simp only [encodeVal, reduceCtorEq] at h
+    rename_i ss
+    cases hf : encodeFields fs ss with
+    | none => simp [hf] at h
+    | some vs =>
+      simp only [hf] at h
+      simp only [Ty.eraseMask, encodeVal, encodeFields_eraseMask fs ss vs hf]; exact h
+  | .array cap el, nl, t, val, v, h => by
+    cases val <;> simp only [encodeVal, reduceCtorEq] at h
+    rename_i vs
+    split at h
+    · rename_i hcap
+      cases he : encodeElems el vs with
+      | none => simp [he] at h
+      | some xs =>
+        simp only [he] at h
+        simp only [Ty.eraseMask, encodeVal, hcap, if_true,
+          encodeElems_eraseMask el (fun val v hv => encodeVal_eraseMask el false .anon val v hv) vs xs he]
+        exact h
+    · simp at h
+  | .fixarr n el d, nl, t, val, v, h => by
+    cases val <;> simp only [encodeVal, reduceCtorEq] at h
+    rename_i vs
+    split at h
+    · rename_i hlen
+      cases he : encodeElems el vs with
+      | none => simp [he] at h
+      | some xs =>
+        simp only [he] at h
+        simp only [Ty.eraseMask, encodeVal, hlen, if_true,
+          encodeElems_eraseMask el (fun val v hv => encodeVal_eraseMask el false .anon val v hv) vs xs he]
+        exact h
+    · simp at h
+  | .choice alts, nl, t, val, v, h => by
+    cases val <;> simp only [encodeVal, reduceCtorEq] at h
+    rename_i i a
+    cases hg : alts.get i with
+    | none => simp [hg] at h
+    | some pr =>
+      obtain ⟨tag, ty⟩ := pr
+      cases ha : encodeVal false ty (.ctx tag) a with
+      | none => simp [hg, ha] at h
+      | some x =>
+        simp only [hg, ha] at h
+        have := encodeAlts_eraseMask alts i tag ty a x hg ha
+        simp only [Ty.eraseMask, encodeVal, Alts.get_eraseMask, hg, Option.map_some, this]; exact h
+theorem encodeAlts_eraseMask : ∀ (alts : Alts) (i tag : Nat) (ty : Ty) (a : Val) (x : Value),
+    alts.get i = some (tag, ty) → encodeVal false ty (.ctx tag) a = some x →
+    encodeVal false ty.eraseMask (.ctx tag) a = some x
+  | .nil, i, tag, ty, a, x, hg, _ => by simp [Alts.get] at hg
+  | .cons tg ty' rest, 0, tag, ty, a, x, hg, ha => by
+    simp only [Alts.get, Option.some.injEq, Prod.mk.injEq] at hg
+    obtain ⟨rfl, rfl⟩ := hg
+    exact encodeVal_eraseMask ty' false (.ctx tg) a x ha
+  | .cons tg ty' rest, i + 1, tag, ty, a, x, hg, ha => by
+    simp only [Alts.get] at hg
+    exact encodeAlts_eraseMask rest i tag ty a x hg ha
+theorem encodeFields_eraseMask : ∀ (fs : Fields) (ss : Slots) (vals : List Value),
+    encodeFields fs ss = some vals → encodeFields fs.eraseMask ss = some vals
+  | .nil, ss, vals, h => by
+    cases ss <;> simp only [encodeFields, reduceCtorEq] at h
+    simpa only [Fields.eraseMask, encodeFields] using h
+  | .cons tag o n ty rest, ss, vals, h => by
+    cases ss with
+    | nil => simp only [encodeFields, reduceCtorEq] at h
+    | cons s r =>
+      cases s with
+      | absent =>
+        simp only [encodeFields] at h
+        split at h
+        · rename_i ho
+          simp only [Fields.eraseMask, encodeFields, ho, if_true]
+          exact encodeFields_eraseMask rest r vals h
+        · simp at h
+      | null =>
+        simp only [encodeFields] at h
+        split at h
+        · rename_i hn
+          cases hr : encodeFields rest r with
+          | none => simp [hr] at h
+          | some rs =>
+            simp only [hr] at h
+            simp only [Fields.eraseMask, encodeFields, hn, if_true, encodeFields_eraseMask rest r rs hr]; exact h
+        · simp at h
+      | val a =>
+        simp only [encodeFields] at h
+        cases ha : encodeVal n ty (.ctx tag) a with
+        | none => simp [ha] at h
+        | some x =>
+          cases hr : encodeFields rest r with
+          | none => simp [ha, hr] at h
+          | some rs =>
+            simp only [ha, hr] at h
+            simp only [Fields.eraseMask, encodeFields, encodeVal_eraseMask ty n (.ctx tag) a x ha,
+              encodeFields_eraseMask rest r rs hr]; exact h
+  | .consSkip tag ty dflt rest, ss, vals, h => by
+    cases ss with
+    | nil => simp only [encodeFields, reduceCtorEq] at h
+    | cons s r =>
+      cases s with
+      | absent => simp only [encodeFields, reduceCtorEq] at h
+      | null => simp only [encodeFields, reduceCtorEq] at h
+      | val a =>
+        simp only [encodeFields] at h
+        cases ha : encodeVal false ty (.ctx tag) a with
+        | none => simp [ha] at h
+        | some x =>
+          cases hr : encodeFields rest r with
+          | none => simp [ha, hr] at h
+          | some rs =>
+            simp only [ha, hr] at h
+            simp only [Fields.eraseMask, encodeFields, encodeVal_eraseMask ty false (.ctx tag) a x ha,
+              encodeFields_eraseMask rest r rs hr]; exact h
+end
+
+/-- a flags value holding a bit outside the declared flags (`from_bits_retain`): the real encoder writes it like
+any integer, the decoder (`from_bits`) refuses the bytes — no round trip for such values -/
+theorem bitflags_undefined_rejected (w : Width) (m n : Nat) (nl : Bool) (t : Tag) (X : Bytes)
+    (h1 : n ≤ wmax w) (h2 : (n &&& m) ≠ n) (h3 : nl = true → n ≠ wmax w) :
+    encodeVal nl (Ty.uint w (.mask m)).eraseMask t (.num n) = some (.leaf t (uintPrim w n)) ∧
+    encodeVal nl (Ty.uint w (.mask m)) t (.num n) = none ∧
+    decodeVal nl (.uint w (.mask m)) (encode (.leaf t (uintPrim w n)) ++ X) = .err .invalid := by
+  have hne : (nl && n == wmax w) = false := by
+    cases nl
+    · rfl
+    · simp [h3 rfl]
+  have hok : (!nl || n != wmax w) = true := by
+    cases nl
+    · rfl
+    · simp [h3 rfl]
+  refine ⟨?_, ?_, ?_⟩
+  · simp only [Ty.eraseMask, Dom.eraseMask, encodeVal, Dom.accepts, decide_eq_true h1, hok, Bool.and_self, if_true]
+  · simp only [encodeVal, Dom.accepts, beq_eq_false_iff_ne.mpr h2, Bool.and_false, Bool.false_and,
+      Bool.false_eq_true, if_false]
+  · simp only [decodeVal, readUint_written t w n X h1, Res.ok_bind, hne, Bool.false_eq_true, if_false, Dom.accepts,
+      beq_eq_false_iff_ne.mpr h2]
 
 /-! ### the tag numbering rule of the derive macro -/
 
